@@ -39,6 +39,7 @@ func c18(tier string) []*explore.Scenario {
 		out = append(out, c18StopRace(newKey, bound+1))
 	}
 	out = append(out, c18WriteFault(bound), c18StatefulKey(bound), c18CancelWhileWriting(bound))
+	out = append(out, c18ReuseWhileOldWriteStuck("completes", bound), c18ReuseWhileOldWriteStuck("never", bound))
 	seqLen := 5
 	if tier == "thorough" {
 		seqLen = 7
@@ -751,6 +752,88 @@ func c18CancelWhileWriting(bound int) *explore.Scenario {
 			if !runDone {
 				vsched.Fail(fam+"|run-hang", "Run did not return after Stop")
 			}
+		},
+	}
+}
+
+// c18ReuseWhileOldWriteStuck: an envelope written on k0's logical connection is stuck in the
+// shared transport's Write when k0 is cancelled; k0 is then used again (a new logical
+// connection); only then does the shared transport take the old envelope (or fail). The new
+// connection is nobody's to cancel: it goes on receiving k0's envelopes and can write.
+func c18ReuseWhileOldWriteStuck(oldWrite string, bound int) *explore.Scenario {
+	fam := "C18/cancel"
+	return &explore.Scenario{
+		Name: "C18/key-reused-while-old-write-is-stuck/old-write-" + oldWrite, Family: fam, Prop: "C18", Bound: bound,
+		Run: func() {
+			tap := &env.Tap{}
+			shared := env.NewPipe(tap, env.PipeOpts{Name: "shared", Cap: 0})
+			var conns []goat.RpcReadWriter
+			got := map[int][]uint64{}
+			rerr := map[int]error{}
+			ctx, cancel := context.WithCancel(context.Background())
+			defer cancel()
+			dm := goat.NewDemux(ctx, shared.B, func(r *env.Rpc) string { return r.GetHeader().GetSource() }, func(rw goat.RpcReadWriter) {
+				idx := len(conns)
+				conns = append(conns, rw)
+				for {
+					r, err := rw.Read(context.Background())
+					if err != nil {
+						rerr[idx] = err
+						return
+					}
+					got[idx] = append(got[idx], r.Id)
+				}
+			})
+			vsched.GoNamed("demux-run", func() { dm.Run() })
+			vsched.Settle()
+			vsched.GoNamed("remote", func() { shared.A.Write(context.Background(), c18Msg(1, "k0")) })
+			vsched.Quiesce()
+			if len(conns) != 1 {
+				vsched.Fail(fam+"|harness", "k0 not announced")
+				return
+			}
+			vsched.Explore(true)
+			vsched.GoNamed("writer-k0", func() { conns[0].Write(context.Background(), c18Msg(100, "k0")) })
+			vsched.Quiesce()
+			vsched.GoNamed("canceller", func() { dm.Cancel("k0") })
+			vsched.Quiesce()
+			vsched.GoNamed("remote2", func() { shared.A.Write(context.Background(), c18Msg(2, "k0")) })
+			vsched.Quiesce()
+			if len(conns) != 2 || len(got[1]) != 1 {
+				vsched.Fail(fam+"|reuse", "k0 used again after Cancel (an old envelope of k0 still stuck in the shared transport's Write): connections announced %d, the new one received %v; threads: %s", len(conns), got[1], threadList())
+				return
+			}
+			// the old envelope finally leaves (the far side reads it) or the transport refuses it
+			switch oldWrite {
+			case "completes":
+				vsched.GoNamed("far-reader", func() { shared.A.Read(context.Background()) })
+			case "never":
+			}
+			vsched.Quiesce()
+			vsched.GoNamed("remote3", func() { shared.A.Write(context.Background(), c18Msg(3, "k0")) })
+			vsched.Quiesce()
+			wdone := false
+			var werr error
+			vsched.GoNamed("writer-new", func() { werr = conns[1].Write(context.Background(), c18Msg(101, "k0")); wdone = true })
+			vsched.GoNamed("far-reader2", func() {
+				for i := 0; i < 2; i++ {
+					if _, err := shared.A.Read(context.Background()); err != nil {
+						return
+					}
+				}
+			})
+			vsched.Quiesce()
+			vsched.Obs("old write %s: connections=%d new got=%v new read err=%v new write done=%v err=%v", oldWrite, len(conns), got[1], rerr[1], wdone, werr)
+			if len(conns) != 2 || fmt.Sprint(got[1]) != "[2 3]" || rerr[1] != nil {
+				vsched.Fail(fam+"|new-connection-cancelled", "k0 was cancelled, used again, and then the old connection's stuck write ended (%s): the NEW connection (never cancelled) received %v, read error %v, %d connections announced", oldWrite, got[1], rerr[1], len(conns))
+			}
+			if oldWrite == "completes" && (!wdone || werr != nil) {
+				vsched.Fail(fam+"|new-connection-cancelled", "a write on k0's new connection: done=%v err=%v", wdone, werr)
+			}
+			dm.Stop()
+			shared.A.Break()
+			shared.B.Break()
+			vsched.Quiesce()
 		},
 	}
 }
